@@ -9,10 +9,12 @@ Sw2 == {1, 2}
 Locs4 == {<<1, 1>>, <<1, 3>>, <<2, 1>>, <<2, 3>>}
 Locs3 == {<<1, 1>>, <<2, 1>>, <<2, 3>>}
 Locs6 == {<<1, 1>>, <<1, 2>>, <<1, 3>>, <<2, 1>>, <<2, 2>>, <<2, 3>>}
+Locs2 == {<<1, 1>>, <<2, 3>>}
 Cable == {<< <<1, 3>>, <<2, 3>> >>}
 KAll == AllKinds
 KMain == {"arpq", "arpr", "ip", "raw", "lldp"}
 KFew == {"arpq", "ip", "raw"}
+KTwo == {"arpq", "ip"}
 D3060 == {30, 60}
 D60 == {60}
 DReal == {1, 4, 5}
